@@ -10,6 +10,7 @@ package fakeipfs
 import (
 	"context"
 	"errors"
+	"fmt"
 	"sync"
 
 	"github.com/ipfs/boxo/path"
@@ -24,12 +25,14 @@ import (
 type FaultKind int
 
 const (
-	FaultNone    FaultKind = iota
-	FaultMissing           // format.ErrNotFound
-	FaultError             // a generic error
-	FaultGarbage           // a node whose bytes are not a valid block of any codec
-	FaultReplace           // a node with caller-supplied bytes (malformed block of a given shape)
-	FaultSlow              // never answers; returns only when ctx is done
+	FaultNone     FaultKind = iota
+	FaultMissing            // format.ErrNotFound
+	FaultError              // a generic error
+	FaultCtxError           // an error wrapping context.DeadlineExceeded although the caller's context is alive (a storage
+	// layer with its own per-request deadline)
+	FaultGarbage // a node whose bytes are not a valid block of any codec
+	FaultReplace // a node with caller-supplied bytes (malformed block of a given shape)
+	FaultSlow    // never answers; returns only when ctx is done
 )
 
 var ErrInjected = errors.New("fakeipfs: injected failure")
@@ -147,6 +150,8 @@ func (d *Dag) Get(ctx context.Context, c cid.Cid) (format.Node, error) {
 		return nil, format.ErrNotFound{Cid: c}
 	case FaultError:
 		return nil, ErrInjected
+	case FaultCtxError:
+		return nil, fmt.Errorf("fakeipfs: request deadline of the storage layer: %w", context.DeadlineExceeded)
 	case FaultGarbage:
 		return dag.NewRawNode([]byte{0xff, 0x00, 0xfe, 0x13, 0x37}), nil
 	case FaultReplace:
